@@ -312,8 +312,13 @@ TotalData(P) == ISum(P.pc)
 (* they are too few to determine all coefficients there need not be a gap, and any interior breakpoint  *)
 (* may go.                                                                                              *)
 DropMargin(P) == IMax(1, P.nord \div 2)
-NearGap(P, mask, si) == {g \in mask \cap Interior(P) :
-                          \E j \in si.untouched : RankIn(mask, g) \in (j - DropMargin(P))..(j + P.nord + DropMargin(P))}
+NearFuncs(P, mask, js) == {g \in mask \cap Interior(P) :
+                            \E j \in js : RankIn(mask, g) \in (j - DropMargin(P))..(j + P.nord + DropMargin(P))}
+NearGap(P, mask, si) == NearFuncs(P, mask, si.untouched)
+(* weak: basis functions that do see data but with a measured influence sum w B^2 many orders of magnitude    *)
+(* below the average weight (data at the very edge of their support): the code may treat them as unsupported  *)
+DroppableW(P, mask, weak) == LET si == SupportInfo(P, mask) IN
+                             IF si.touched THEN mask \cap Interior(P) ELSE NearFuncs(P, mask, si.untouched \cup weak)
 Droppable(P, mask) == LET si == SupportInfo(P, mask) IN
                       IF si.touched THEN mask \cap Interior(P) ELSE NearGap(P, mask, si)
 
@@ -375,6 +380,9 @@ CanDrop == CanFit /\ ~TooFewKnots /\ ~WellSupported(prob, bkmask)
 DropTo(m2) == /\ m2 \subseteq bkmask /\ m2 # bkmask /\ (bkmask \ m2) \subseteq Droppable(prob, bkmask)
               /\ status' = -1 /\ bkmask' = m2 /\ nfits' = nfits + 1 /\ UNCHANGED <<prob, phase>>
 FitDrop(m2) == CanDrop /\ DropTo(m2)
+(* the same with the harness-measured weak functions of the event (trace specification only) *)
+FitDropW(m2, weak) == /\ CanDrop /\ m2 \subseteq bkmask /\ m2 # bkmask /\ (bkmask \ m2) \subseteq DroppableW(prob, bkmask, weak)
+                      /\ status' = -1 /\ bkmask' = m2 /\ nfits' = nfits + 1 /\ UNCHANGED <<prob, phase>>
 FitFail == /\ CanFit /\ (TooFewKnots \/ ~WellSupported(prob, bkmask))
            /\ status' = -2 /\ nfits' = nfits + 1 /\ UNCHANGED <<prob, bkmask, phase>>
 (* the caller's loop (iterfit) fits again after -1, stops after 0 and -2 and when its budget is used; *)
